@@ -507,7 +507,7 @@ func runC07(c *wk.Ctx) {
 	c.Floor("terminal:step-fatal-error", 20)
 	directed := c07Directed(wk.NewRand(c.Seed, "C07-directed", 0))
 	c.Meta("cov.directed_scripts", len(directed))
-	nScripts := int64(len(directed)) + c.N(40, 1500)
+	nScripts := int64(len(directed)) + c.N(40, 3000)
 	c.Cases(nScripts, func(idx int64, r *wk.Rand) {
 		var items []c07Item
 		if idx < int64(len(directed)) {
